@@ -22,8 +22,11 @@ META = {
     "level_note": "The unfiltered annotated stream A (indices, ids, lifecycle membership) is obtained black-box from the same "
                   "binary: `-a` without selection, the lifecycle listing, and one `--lcs=k -s` run per listed lifecycle; the "
                   "contract checks these reference runs for consistency (all generated messages once, numbered 0.., lifecycles "
-                  "partition the stream with the listed counts and ECUs). Narrow readings: reception times are unique over all "
-                  "input files (no heap ties between parallel streams); with --sort only the set of emitted messages is checked "
+                  "partition the stream with the listed counts and ECUs). Narrow readings: in the permuted input sets reception times are unique "
+                  "over all input files (no heap ties between parallel streams); input sets whose files share an IDENTICAL first "
+                  "reception time (same and different ECU sets) are run with one fixed argument order - the main clause (exactly "
+                  "Sel, each once, on every sink; reference run = all generated messages) is checked there, the permutation clause "
+                  "is not; untied shapes may name the first file twice (legitimately de-duplicated; not combined with tied first times, where the unchanged tool reads the duplicated file twice - reported, outside the statement); with --sort only the set of emitted messages is checked "
                   "(order of sorted output may depend on thread timing), so PermuteFiles is 'identical sequence' without --sort "
                   "and 'identical set' with --sort; only literal ECU/APID/CTID filters (the criterion language is C11); control "
                   "messages are not generated (C05/C07 known defects of the lifecycle detector are out of scope here). "
@@ -90,8 +93,28 @@ def singles(space):
     return res
 
 
+FEATS = ("ecus", "boots", "garbage", "noext", "dup")
+
+
+def pick_tied(shapes, k, rnd):
+    """k shapes whose files share the first reception time: alternately files of the SAME ECU set (one stream, read one
+    after the other) and of DIFFERENT ECU sets (parallel streams), 2 and 3 files"""
+    def same(s):
+        return len(set(s["ecus"])) < len(s["ecus"])
+    tied = [s for s in shapes if s["tie"] != "none"]
+    res = []
+    for i in range(k):
+        want_same = i % 2 == 0
+        want_n = 2 if (i // 2) % 2 == 0 else 3
+        cand = [s for s in tied if same(s) == want_same and len(s["ecus"]) == want_n and s not in res
+                and (s["tie"] == "all" or want_same)]
+        res.append(rnd.choice(cand))
+    return res
+
+
 def pick_shapes(shapes, k, rnd):
     """k shapes covering 1, 2 and 3 files, every ECU pattern class, garbage / noext / boots values"""
+    shapes = [s for s in shapes if s["tie"] == "none"]
     by_n = {}
     for s in shapes:
         by_n.setdefault(len(s["ecus"]), []).append(s)
@@ -103,9 +126,9 @@ def pick_shapes(shapes, k, rnd):
         i += 1
         cand = [s for s in by_n[n] if s not in res]
         # prefer shapes adding new (feature,value) pairs
-        have = {(f, vkey(s[f])) for s in res for f in ("ecus", "boots", "garbage", "noext")}
+        have = {(f, vkey(s[f])) for s in res for f in FEATS}
         rnd.shuffle(cand)
-        cand.sort(key=lambda s: -len({(f, vkey(s[f])) for f in ("ecus", "boots", "garbage", "noext")} - have))
+        cand.sort(key=lambda s: -len({(f, vkey(s[f])) for f in FEATS} - have))
         res.append(cand[0])
     return res
 
@@ -184,7 +207,7 @@ def check(ctx):
     space.sort(key=vkey)
     shapes.sort(key=vkey)
     nshapes = 4 if quick else 12
-    chosen = pick_shapes(shapes, nshapes, rnd)
+    chosen = pick_shapes(shapes, nshapes, rnd) + pick_tied(shapes, 2 if quick else 8, rnd)
     plan = []
     npairs = 0
     for k, sh in enumerate(chosen):
@@ -193,7 +216,8 @@ def check(ctx):
             rows = singles(space) + rows
         plan.append({"set": k + 1, "shape": sh, "opts": rows, "mode": "pairwise"})
     if not quick:
-        full_shape = [s for s in shapes if len(s["ecus"]) == 3 and s["garbage"] and s["noext"] and s["boots"] == 2][rnd.randrange(3)]
+        full_shape = [s for s in shapes if len(s["ecus"]) == 3 and s["garbage"] and s["noext"] and s["boots"] == 2
+                      and s["tie"] == "none" and not s["dup"]][rnd.randrange(3)]
         plan.append({"set": len(plan) + 1, "shape": full_shape, "opts": space, "mode": "full"})
     planf = ctx.path("plan.ndjson")
     with open(planf, "w") as f:
@@ -217,9 +241,11 @@ def check(ctx):
         verdicts = list(ex.map(val, traces))
     counters = {"cases": 0, "ref_cases": 0, "sel_cases": 0, "winc": {}, "lcsc": {}, "ffmt": {}, "neac": {}, "style": {}, "sort": 0,
                 "ofile": 0, "perm_non_identity": 0, "multi_file_cases": 0, "empty_output": 0, "partial_output": 0,
-                "full_output": 0, "lines": 0, "filemsgs": 0, "lifecycles_per_set": {}, "msgs_per_set": {}, "skipped_noref": 0}
+                "full_output": 0, "lines": 0, "filemsgs": 0, "lifecycles_per_set": {}, "msgs_per_set": {}, "skipped_noref": 0,
+                "tied_first_rx_same_ecu_set_cases": 0, "tied_first_rx_different_ecu_sets_cases": 0, "dup_file_argument_cases": 0}
     seen_nontrivial = set()
     seen_ref = set()
+    shape_of = {e["set"]: e["shape"] for e in plan}
     first_cases = None
     validated = 0
     for fn, v in verdicts:
@@ -261,6 +287,15 @@ def check(ctx):
                     counters["perm_non_identity"] += 1
                 if len(h["perm"]) > 1:
                     counters["multi_file_cases"] += 1
+                sh = shape_of.get(h["set"], {})
+                if sh.get("tie", "none") != "none":
+                    pats = sh["ecus"]
+                    if len(set(pats)) < len(pats):
+                        counters["tied_first_rx_same_ecu_set_cases"] += 1
+                    if len(set(pats)) > 1 and sh["tie"] == "all":
+                        counters["tied_first_rx_different_ecu_sets_cases"] += 1
+                if sh.get("dup"):
+                    counters["dup_file_argument_cases"] += 1
                 nl = sum(1 for e in evs if e["ev"] == "line")
                 nf = sum(1 for e in evs if e["ev"] == "filemsg")
                 counters["lines"] += nl
@@ -305,7 +340,8 @@ def check(ctx):
     if ctx.violations:
         return          # a violating run is reported as such; vacuity and self-test only judge clean runs
     if missing or counters["partial_output"] == 0 or counters["perm_non_identity"] == 0 or counters["filemsgs"] == 0 \
-            or max(counters["lifecycles_per_set"].values() or [0]) < 2:
+            or max(counters["lifecycles_per_set"].values() or [0]) < 2 or counters["tied_first_rx_same_ecu_set_cases"] == 0 \
+            or counters["tied_first_rx_different_ecu_sets_cases"] == 0 or counters["dup_file_argument_cases"] == 0:
         raise c.ToolError("vacuous run: missing=%s counters=%s" % (missing, counters))
     st = corrupt_selftest(ctx, first_cases)
     if st is None:
@@ -318,4 +354,4 @@ def check(ctx):
     ctx.assumptions = ["TLC 1.8.0 and CommunityModules are correct",
                        "the text projection (index = first column, message key = timestamp column, ids = ECU/APID/CTID columns) is correct",
                        "the reference stream A is what the same binary prints without selection (checked for consistency with the generated input)",
-                       "TZ=UTC, fresh process per run, unique reception times over all input files"]
+                       "TZ=UTC, fresh process per run; reception times unique over all input files except the deliberately tied first messages"]
